@@ -29,7 +29,7 @@ D = np.datetime64
 
 class Rep(Report):
     """Report whose failures carry their own key in the replay data; `cap` bounds the number of distinct keys kept"""
-    cap = 60
+    cap = 80
 
     def check(self, cond, key, what, replay=None):
         if cond:
@@ -87,9 +87,9 @@ def frame_cases(tier):
     for kinds in itertools.product(KINDS, repeat=2):
         for r in (0, 1, 2, 3):
             yield (kinds, r)
-    small = ('i', 'F', 'b', 'O', 'U') if q else ('i', 'f', 'F', 'b', 'O', 'U', 'N')
+    small = ('i', 'f', 'F', 'b', 'O', 'U') if q else ('i', 'f', 'F', 'b', 'O', 'U', 'N', 'u')
     for kinds in itertools.product(small, repeat=3):
-        for r in ((3,) if q else (1, 2, 3)):
+        for r in ((2, 3) if q else (1, 2, 3)):
             yield (kinds, r)
     for kinds in (('i', 'i', 'f', 'F'), ('b', 'b', 'i', 'O'), ('F', 'F', 'F', 'F'), ('i', 'u', 'u', 'b'), ('U', 'U', 'P', 'P'), ('M', 'N', 'N', 'i'),
                   ('f', 'G', 'G', 'A'), ('O', 'O', 'F', 'i')):
@@ -403,7 +403,8 @@ def eval_frame_case(rep, case, tier='quick'):
     shape = 'zero-columns' if m == 0 else 'zero-rows' if r == 0 else 'one-row' if r == 1 else None
     ops = [(op, kw) for op, kw in REDUCERS] + [(op, {}) for op in ARGS] + [(op, {}) for op in CUMS]
     for (op, kw), axis, skipna in itertools.product(ops, (0, 1), (True, False)):
-        fam = shape or FAMILY[op]     # degenerate shapes fail alike for every operation: key them by shape, not by operation family
+        # 0-sized shapes fail alike for every operation: key them by shape; one-row frames run the per-operation size_one_unity shortcut
+        fam = shape if shape in ('zero-columns', 'zero-rows') else (f'one-row:{FAMILY[op]}' if shape else FAMILY[op])
         tag = f'{op}' + (f'[ddof={kw["ddof"]}]' if 'ddof' in kw else '')
         rp = dict(base_rp, op=op, kw=kw, axis=axis, skipna=skipna)
         outs = []
@@ -592,7 +593,7 @@ def _eval(rep, case, tier):
 
 
 RULE = ('every assignment of column kinds {int64, uint8, float64, float64+NaN (2 patterns), all-NaN, bool, object numbers, object numbers+None, str (with ""), '
-        'datetime64[D], datetime64[D]+NaT} to 1 and 2 columns, of 5 (thorough 7) kinds to 3 columns, 8 selected 4-column mixes, and the 0-column frame; rows 0..3; '
+        'datetime64[D], datetime64[D]+NaT} to 1 and 2 columns, of 6 (thorough 8) kinds to 3 columns, 8 selected 4-column mixes, and the 0-column frame; rows 0..3; '
         'x every dtype-safe block layout (1-D / 2-D blocks) x {sum, prod, min, max, mean, median, std, var (ddof 0, 1), all, any, iloc/loc_min/max, cumsum, cumprod} '
         'x axis {0, 1} x skipna {True, False};  Series: every kind x rows 0..3 x the same operations.  Non-trivial: at least one non-empty vector is reduced.')
 BOUND = 'columns <= 4, rows <= 3, 12 column kinds, 18 operations, ddof in {0, 1}'
